@@ -40,6 +40,8 @@ def run(ctx):
     from . import sc32
     ctx.guard("decode", "fe64::from_bytes", lambda: C12.check_from_bytes64(ctx, P))
     ctx.guard("decode32", "fe32::from_bytes", lambda: sc32.check_decode32(ctx, P2))
+    ctx.guard("table", "Scalar::ZERO/64", lambda: sc32.check_scalar_consts(ctx, P, "scalar64"))
+    ctx.guard("table", "Scalar::ZERO/32", lambda: sc32.check_scalar_consts(ctx, P2, "scalar32"))
     ctx.guard("sc", "scalar32::reduce", lambda: sc32.check_scalar32(ctx, P2, "reduce"))
     ctx.guard("sc", "scalar32::muladd", lambda: sc32.check_scalar32(ctx, P2, "muladd"))
     ctx.guard("exponent", "fe64", lambda: C12.check_exponents(ctx, P, "K0", "fe64"))
